@@ -154,8 +154,8 @@ CHECKS["C20"] = dict(
         "to the pair; apply followed by un-apply of efficiencies, block and geometric factors is the identity for non-zero factors, applying multiplies by the product of the two detectors' factors; model data are a fixed "
         "point of the efficiency and block iterations (0 where the fan sum is 0); each coordinate update and hence every sweep of iterate_efficiencies does not increase the Kullback-Leibler distance (abstract "
         "formulation, proved over the reals). KL descent of iterate_efficiencies (KL summed once per detector pair) and the fixed point of the geometric factors are theorems about the executable model itself (the latter for every GeoData3D that fits the FanProjData: g.N = d.N, 2*half | N, acpb | R — without which the model violates it); the library's own KL function double counts in-ring LORs (negative witness, listed known finding). "
-        "Tie: the real make_fan_data/set_fan_data/apply_*/iterate_*/make_*_data functions on generated small scanners against the exact-Rat model; fixed-point and descent oracles on the implementation.",
-   note=TB + "log only in the KL theorems (reals) and the oracle (double); GE/ECAT-specific normalisation files not exercised.",
+        "The DetPairData family (2-D detector-pair representation) is modelled too: entry = bin value, round trip, apply/un-apply, product of the two detectors' factors, efficiency fixed point and KL descent (by refinement to the one-ring fan model) are theorems; the model-free iterate_efficiencies overload is proved to be the model-of-ones instance. Tie: the real FanProjData and DetPairData functions (make/set, apply_*, make_*_data, iterate_*, KL, model-free overloads) on generated scanners with and without virtual crystals against the exact-Rat model; multiply_crystal_factors on span/mashing/TOF/virtual-crystal data and ML_estimate_component_based_normalisation for all 16 flag combinations with several blocks per bucket by oracle (recomputation from the building blocks); fixed-point and descent oracles on the implementation. Two defects were repaired in /repo; four classes of scanner on which the property cannot hold are listed known findings.",
+   note=TB + "log only in the KL theorems (reals) and the oracle (double); DetPairData block/geometric fixed points and block/geometric descent are oracle-only; the detector-pair <-> bin map (C01) is a parameter; GE/ECAT-specific normalisation files not exercised.",
    design="DESIGN.md §4 C20")
 
 CHECKS["C03"] = dict(
